@@ -100,6 +100,9 @@ class CMultiply(Contract):
         ex.oblige(f"pre({site}).code_points_fit_one_byte", ctx.forall_range(0, x1.N, lambda i: ctx.forall_range(0, x2.N, lambda j: ctx.forall_range(
             0, x1.D, lambda d: z3.And(expo(x1.row(i), d) + expo(x2.row(j), d) + g["K"] >= 1, expo(x1.row(i), d) + expo(x2.row(j), d) + g["K"] < 128)))),
             "precondition", node, note="sprintf('%c') writes one byte per exponent; 128.. is not valid UTF-8 on its own")
+        ex.oblige(f"pre({site}).key_fits_the_256_byte_buffer", x1.D <= 255, "precondition", node,
+                  note="cmultiply.pyx builds the key in `char key[256]` with one sprintf('%c') per indeterminate, each of which also "
+                       "writes a terminating NUL: more than 255 indeterminates overflow the stack buffer (undefined behaviour, SIGSEGV)")
         ex.oblige(f"pre({site}).every_sum_is_a_field", ctx.forall_range(0, x1.N, lambda i: ctx.forall_range(0, x2.N, lambda j: z3.And(
             0 <= g["upos"](i, j), g["upos"](i, j) < p.N, meq(p.row(g["upos"](i, j)), madd(x1.row(i), x2.row(j)), p.D)))), "precondition", node)
         frame_check(ex, p.region, node, "cmultiply")
